@@ -20,7 +20,7 @@ var (
 			"utils.ExponentialBackoffDuration; oracle = closed form d>0 and 0.9*E(n) <= d <= 1.1*E(n), E(n)=min(2^n ms, 3 s) in big-integer "+
 			"arithmetic (1 us rounding tolerance); non-trivial = n >= 11 (at or beyond the cap); distinct = distinct n")
 	recB = vh.NewRecorder("C08", "agent-polling",
-		"fail/succeed patterns of 6-25 pending-list calls (failure kinds: 5xx, 404, garbage JSON, body truncated mid-way, error statuses with an empty body) served by a fake proxy to "+
+		"fail/succeed patterns of 6-25 pending-list calls (failure kinds: 5xx, 404, garbage JSON, body truncated mid-way, error statuses with an empty body, 429/503 with a Retry-After header of 0, 1, 2 seconds or a date in the past) served by a fake proxy to "+
 			"the real agent binary, 4 patterns concurrently on separate agents; oracle on fake-proxy timestamps: the gap after the j-th "+
 			"consecutive failure is >= 0.9*E(j-1) (lower bounds only), and after a run of k>=9 failures, one success and one failure the "+
 			"gap is < 0.9*E(k) (counter was reset); non-trivial = pattern with >=3 consecutive failures followed by a success")
@@ -127,7 +127,8 @@ type CaseB struct {
 
 func genPattern(t *rapid.T) []Step {
 	var p []Step
-	kinds := []string{"5xx", "404", "garbage", "truncated", "503-empty", "401-empty", "500-empty-chunked"}
+	kinds := []string{"5xx", "404", "garbage", "truncated", "503-empty", "401-empty", "500-empty-chunked",
+		"503-retry-after-0", "429-retry-after-past", "503-retry-after-2", "429-retry-after-1"}
 	budget := 4500 // ms of expected sleeping
 	addRun := func(k int) {
 		for j := 0; j < k; j++ {
@@ -213,6 +214,22 @@ func runPattern(p []Step) (nontrivial bool, err error, inconclusive string) {
 			if f, ok := w.(http.Flusher); ok {
 				f.Flush()
 			}
+		case st.Kind == "503-retry-after-0":
+			// what a front end or load balancer in front of the proxy may answer; the agent's delays are its own
+			w.Header().Set("Retry-After", "0")
+			w.WriteHeader(503)
+			w.Write([]byte("slow down"))
+		case st.Kind == "429-retry-after-past":
+			w.Header().Set("Retry-After", "Wed, 21 Oct 2015 07:28:00 GMT")
+			w.WriteHeader(429)
+			w.Write([]byte("slow down"))
+		case st.Kind == "503-retry-after-2":
+			w.Header().Set("Retry-After", "2")
+			w.WriteHeader(503)
+		case st.Kind == "429-retry-after-1":
+			w.Header().Set("Retry-After", "1")
+			w.WriteHeader(429)
+			w.Write([]byte("slow down"))
 		case st.Kind == "404":
 			w.WriteHeader(404)
 			w.Write([]byte("not found"))
@@ -285,6 +302,11 @@ func runPattern(p []Step) (nontrivial bool, err error, inconclusive string) {
 		lower := time.Duration(float64(expMs(consec-1)) * 0.9)
 		if gap < lower-500*time.Microsecond {
 			return nontrivial, fmt.Errorf("after %d consecutive failing list calls the agent waited only %v before the next call (at least %v required); pattern %v", consec, gap, lower, brief(p)), ""
+		}
+		// the delays start at about 1 ms and double: after at most five failures in a row (<= 16 ms +10%) a whole second is
+		// not "about" that, whatever the machine load (confirmed on a second run like the reset probe)
+		if consec <= 5 && gap >= time.Second {
+			return nontrivial, fmt.Errorf("RESET: after %d consecutive failing list calls (the last one of kind %q) the agent waited %v before the next call; about %v expected; pattern %v", consec, p[i].Kind, gap, expMs(consec-1), brief(p)), ""
 		}
 		// reset probe: this failure directly follows a success that followed a run of k>=9 failures
 		if consec == 1 && i >= 2 && !p[i-1].Fail {
